@@ -47,7 +47,10 @@ Fixpoint mexpr_invalid (e : mexpr) : bool :=
   match e with
   | MRange _ q _ _ _ _ _ => existsb is_invalid (q_pipe q)
   | MVecAgg _ e' _ _ => mexpr_invalid e'
-  | MBin _ _ l r => mexpr_invalid l || mexpr_invalid r
+  | MBin op _ l r =>
+      (* a set operation with a scalar operand passes the parser when the scalar is parenthesised; building it fails (D38) *)
+      (is_logic_op op && (match l with MLit _ => true | _ => false end || match r with MLit _ => true | _ => false end)) ||
+      mexpr_invalid l || mexpr_invalid r
   | _ => false
   end.
 
